@@ -109,6 +109,18 @@ def translator_tie(ctx):
                 meta.append(('gen', d, recv, a, b, real))
                 reqs.append({'op': 'mirror', 'dialect': d, 'expr': recv, 'start': arg_json(a), 'stop': arg_json(b)})
                 meta.append(('mirror', d, recv, a, b, real))
+    # the SQLite builder method (also regenerated from the source): SQL text pieces around builder(expr), builder(start), builder(stop)
+    sq = sqlite_provider.SQLiteBuilder.STRING_SLICE
+    rb = RecBuilder('SQLite')
+    for recv in recvs:
+        for a, b in itertools.product(bounds, bounds):
+            real = real_call(sq, rb, recv, arg_py(a), arg_py(b))
+            reqs.append({'op': 'gen_sqlite', 'expr': recv, 'start': arg_py(a), 'stop': arg_py(b)})
+            meta.append(('gen-sqlite', 'SQLite', recv, a, b, real))
+            reqs.append({'op': 'mirror', 'dialect': 'SQLite', 'expr': recv, 'start': arg_json(a), 'stop': arg_json(b)})
+            r = real.get('ok')
+            as_node = {'ok': ['PY_STRING_SLICE', r[1], r[3], r[5]]} if r and len(r) == 7 and [r[0], r[2], r[4], r[6]] == ['py_string_slice(', ', ', ', ', ')'] else real
+            meta.append(('mirror', 'SQLite', recv, a, b, as_node))
     # malformed stream: only the generated definition (the typed mirror is total on well-typed bounds by construction)
     bad = [['VALUE', None], ['VALUE', 'x'], [], ['VALUE'], 5, ['VALUE', True], [['VALUE', 1]], [None]]   # (str bounds: `'VALUE'[0]` is outside the PyVal subset)
     for d in DIALECTS:
@@ -125,7 +137,10 @@ def translator_tie(ctx):
         if kind.startswith('gen'):
             if 'ok' in out:
                 o = out['ok']
-                m = {'ok': o['args'][0]} if isinstance(o, dict) and o.get('call') == 'builder' and len(o.get('args', [])) == 1 else {'ok': o}
+                if kind == 'gen-sqlite' and isinstance(o, list):
+                    m = {'ok': [x['args'][0] if isinstance(x, dict) and x.get('call') == 'builder' and len(x.get('args', [])) == 1 else x for x in o]}
+                else:
+                    m = {'ok': o['args'][0]} if isinstance(o, dict) and o.get('call') == 'builder' and len(o.get('args', [])) == 1 else {'ok': o}
             else:
                 m = {'error': out.get('error', out.get('driver_error'))}
             if kind == 'gen-malformed' and 'error' in m and 'error' in real:
@@ -277,6 +292,14 @@ def guard_class(dialect, s, a_cls, b_cls, i, j):
         if dialect == 'MySQL' and len(s.encode('utf-8')) != n: return 'MySQL:LENGTH()-counts-bytes(non-ASCII string)'
     return None
 
+def exact_ok(dialect, s, a_cls, b_cls, i, j):
+    """engine-side copy of the exact guards (noNegConstLen for PostgreSQL, myExact for MySQL on single-byte strings and Oracle); None = no exact theorem"""
+    n = len(s); i0 = 0 if i is None else i
+    if dialect == 'PostgreSQL':
+        return not (a_cls[0] in 'ocp' and b_cls[0] in 'cp' and j is not None and ((i0 >= 0 and j >= 0) or (i0 < 0 and j < 0)) and j < i0)
+    if dialect == 'MySQL' and len(s.encode('utf-8')) != n: return None
+    return (not (i0 < -n) or s[i:j] == '') and not (-n <= i0 < 0 and j is not None and 0 <= j < n)
+
 def guard_class_index(dialect, name, src):
     """a bound expression that itself calls len(e.name): MySQL's LENGTH() counts bytes"""
     if dialect == 'MySQL' and 'len(e.name)' in src and len(name.encode('utf-8')) != len(name):
@@ -348,6 +371,10 @@ def run_provider(ctx, provider, suspects, failures):
             q, t = translate(E, src, env)
         except Exception as e:
             ctx.divergence('translation raised for a well-typed string subscript', [provider, src], model='translates', impl=type(e).__name__ + ': ' + str(e)[:100])
+            if provider == 'sqlite':
+                ctx.violation("a well-typed string subscript is not translated (the query raises instead of computing Python's result)",
+                              {'query': 'select(%s)' % src, 'vars': {k: v for k, v in env.items() if k != 'sv'}}, observed='%s: %s' % (type(e).__name__, str(e)[:160]),
+                              expected='rows of (id, %s)' % src.split(',', 1)[1].split(')')[0].strip(), key='sqlite:translate-raises:%s:%s/%s' % (type(e).__name__, a[1][0], b[1][0] if b else 'index'))
             continue
         node = norm(t.expr_columns[1])
         real_node = canon_ast(node)
@@ -485,6 +512,12 @@ def ast_grid(ctx, suspects, failures):
         a_cls = ('o',) if i is None else ((ka,)); b_cls = ('o',) if j is None else ((kb,))
         cls = guard_class(d, s, a_cls, b_cls, i, j)
         ctx.case(['grid', d, ka, kb, s, i, j], kind='oracle:grid:' + d)
+        ex = exact_ok(d, s, a_cls, b_cls, i, j)
+        if ex is not None:
+            # the *_exact theorems: agreement with Python holds if and only if the exact guard holds
+            if ex != (got == exp):
+                ctx.divergence('the exact guard of C25_slice_*_exact (engine-side copy) and the Lean evaluator disagree', [d, ka, kb, s, i, j], model=ex, impl=(got == exp))
+            else: ctx.count('grid:exact-guard-confirmed:' + d)
         if got != exp:
             if cls is None:
                 failures.append(dict(sentinel=False, provider={v: k for k, v in PROVIDERS.items()}[d], src='STRING_SLICE(%s, %r, %r)' % (d, i if ka == 'c' else 'expr=%r' % i, j if kb == 'c' else 'expr=%r' % j),
@@ -593,8 +626,15 @@ def repeat_oracle(ctx):
                 vals = vals if isinstance(vals, tuple) else (vals,)
                 if '[n]' in label and vals[0] is None: continue
                 history.append(list(vals))
-                q = qf(*vals)
-                got = sorted(q[:])
+                try:
+                    q = qf(*vals)
+                    got = sorted(q[:])
+                except Exception as e:
+                    ctx.violation('a well-typed string slice/index query raises instead of computing Python\'s result (real SQLite)',
+                                  {'1_query (one code object, called repeatedly)': src, '2_parameter_values_of_successive_executions': list(history), '3_failing_execution': list(vals)},
+                                  observed='%s: %s' % (type(e).__name__, str(e)[:160]), expected=pyf(data, *(vals + (False,)))[:6],
+                                  key='sqlite:repeat-raises:%s:%s' % (label, type(e).__name__))
+                    continue
                 exp = pyf(data, *(vals + (False,)))
                 ctx.case(['repeat', label, list(vals), len(history)], kind='oracle:sqlite:repeat:' + ('nested' if label.startswith('nested') else 'top'))
                 if got != exp:
